@@ -78,14 +78,19 @@ def run(tier, V, only=None, V15=None):
             raise vlib.Machinery("Formulas.tla emitted %d cases, %d planned" % (len(cases), expected_cases))
         # real runs
         path = os.path.join(wd, "cases.ndjson")
+        nreq = 0
         with open(path, "w") as f:
             for cid, (ii, o) in enumerate(cases):
                 it = items[ii]
                 nin = len(it["inputs"])
-                scale = 1.0
-                f.write(json.dumps({"id": cid, "pipe": it["entry"]["pipe"], "cfg": it["cfg"],
-                                    "in": [[float(t[j]) * (1e8 if (it["entry"].get("note") == "volume unit 100000000" and it["inputs"][j] == "volume") else 1.0)
-                                            for t in o["w"]] for j in range(nin)]}) + "\n")
+                # unit 1, and for the purely arithmetic entries also the decimal unit 0.1 on every price (values that are not
+                # exactly representable: a numerically naive reformulation shows there, the exact expectation scales by 0.1^degree)
+                for variant, unit in enumerate([1.0] + ([0.1] if it["entry"]["pipe"] in F.DECIMAL_OK else [])):
+                    f.write(json.dumps({"id": cid * 2 + variant, "pipe": it["entry"]["pipe"], "cfg": it["cfg"],
+                                        "in": [[float(t[j]) * (1e8 if (it["entry"].get("note") == "volume unit 100000000" and it["inputs"][j] == "volume") else 1.0)
+                                                * (unit if it["inputs"][j] != "volume" else 1.0)
+                                                for t in o["w"]] for j in range(nin)]}) + "\n")
+                    nreq += 1
         out = os.path.join(wd, "cases.out")
         p = vlib.harness_cmd(["replay-formula", path, out], timeout=3000)
         if p.returncode != 0:
@@ -99,7 +104,8 @@ def run(tier, V, only=None, V15=None):
         for line in open(out):
             r = json.loads(line)
             nres += 1
-            ii, o = cases[r["id"]]
+            ii, o = cases[r["id"] // 2]
+            decimal = r["id"] % 2 == 1
             it = items[ii]
             e = it["entry"]
             if r.get("err"):
@@ -127,9 +133,11 @@ def run(tier, V, only=None, V15=None):
                     for label, th, pred in e["c15"]:
                         c15["checked"] += 1
                         c15["per"][e["pipe"] + " " + label] = c15["per"].get(e["pipe"] + " " + label, 0) + 1
-                        ok = finite and pred(vals, o["w"][pos - 1])
-                        if not ok:
-                            key = (e["pipe"], label, tuple(it["cfg"]))
+                        xin = [v * 0.1 for v in o["w"][pos - 1]] if decimal else o["w"][pos - 1]
+                        ok = pred(vals, xin) if finite else "not-finite"
+                        if ok is not True:
+                            side = ok if isinstance(ok, str) else "fails"
+                            key = (e["pipe"], label, tuple(it["cfg"]), side, decimal)
                             cand = (len(o["w"]), it["cfg"], o["w"], pos, vals)
                             if key not in bad15:
                                 bad15[key] = cand + (1,)
@@ -152,20 +160,23 @@ def run(tier, V, only=None, V15=None):
                     except IndexError:
                         continue        # the count of values is property C02
                     ex = Fraction(nd[0], nd[1])
+                    if decimal:
+                        dp = F.DEGREES[e["pipe"]][sel][0] if isinstance(sel, int) else F.SQ_DEG[label][0]
+                        ex = ex * Fraction(1, 10) ** dp
                     st["compared"] += 1
                     if not (got == got and F.close_enough(got, ex)):
                         # a non-finite value at a position whose formula is defined, after a position where it was not
                         # (zero denominator): state carried in a window (running sum, tree) was poisoned there
                         nonfinite = got != got or got in (float("inf"), float("-inf"))
                         earlier_undef = any(nd2[1] == 0 for s2 in o["out"] for j2, nd2 in enumerate(s2["v"]) if s2["lo"] + j2 < pos)
-                        sym = "nonfinite-after-undefined" if (nonfinite and earlier_undef) else "value"
+                        sym = "nonfinite-after-undefined" if (nonfinite and earlier_undef) else ("value-decimal-unit" if decimal else "value")
                         key = (e["pipe"], label, sym, tuple(it["cfg"]))
                         cand = (len(o["w"]), it["cfg"], o["w"], pos, got, str(ex), float(ex), expr.format(*it["cfg"]))
                         if key not in bad or cand[0] < bad[key][0]:
                             bad[key] = cand
                         st["bad:" + sym + str(it["cfg"])] = st.get("bad:" + sym + str(it["cfg"]), 0) + 1
-        if nres != len(cases):
-            raise vlib.Machinery("replay-formula returned %d of %d results" % (nres, len(cases)))
+        if nres != nreq:
+            raise vlib.Machinery("replay-formula returned %d of %d results" % (nres, nreq))
         for (pipe, label, sym, _), (n, cfg, word, pos, got, exs, exf, expr) in sorted(bad.items()):
             ins = cat[pipe]["inputs"]
             V.violation({"indicator": pipe, "out": label, "symptom": sym, "cfg": json.dumps(cfg)},
@@ -174,18 +185,18 @@ def run(tier, V, only=None, V15=None):
                         (pipe, cfg, label, ins, word, pos, got, expr, exs, exf, per[(pipe, label)].get("bad:" + sym + str(cfg), 0), per[(pipe, label)]["compared"]),
                         {"pipe": pipe, "cfg": cfg, "inputs": ins, "word": word, "position": pos, "got": got, "documented": exs})
         if V15 is not None:
-            for (pipe, label, _), (n, cfg, word, pos, vals, cnt) in sorted(bad15.items()):
+            for (pipe, label, _, side, dec), (n, cfg, word, pos, vals, cnt) in sorted(bad15.items(), key=lambda kv: str(kv[0])):
                 ins = cat[pipe]["inputs"]
-                V15.violation({"indicator": pipe, "statement": label, "cfg": json.dumps(cfg)},
-                              "%s%s: '%s' does not hold: on the inputs %s = %s the outputs for position %d are %s (%d positions)" %
-                              (pipe, cfg, label, ins, word, pos, vals, cnt),
-                              {"pipe": pipe, "cfg": cfg, "inputs": ins, "word": word, "position": pos, "outputs": vals})
+                V15.violation({"indicator": pipe, "statement": label, "cfg": json.dumps(cfg), "side": side},
+                              "%s%s: '%s' does not hold (%s): on the inputs %s = %s%s the outputs for position %d are %s (%d positions)" %
+                              (pipe, cfg, label, side, ins, word, " x 0.1 (prices)" if dec else "", pos, vals, cnt),
+                              {"pipe": pipe, "cfg": cfg, "inputs": ins, "word": word, "decimal_unit": dec, "position": pos, "outputs": vals})
             return {"indicators": len({e["pipe"] for e in entries}), "instances": len(items), "cases": len(cases),
                     "statements_checked": c15["checked"], "positions_exempt": c15["exempt"], "per_statement": c15["per"],
                     "documented_formula_leaves_range": ["%s: %s" % x for x in c15["model_theorem_false"]]}
         vac = sorted("%s/%s" % k for k, st in per.items() if st["compared"] == 0)
         return {"formula_indicators": len({e["pipe"] for e in entries}), "formula_instances": len(items), "formula_cases": len(cases),
-                "formula_positions_compared": sum(st["compared"] for st in per.values()),
+                "formula_real_runs": nreq, "formula_positions_compared": sum(st["compared"] for st in per.values()),
                 "formula_positions_exempt_zero_denominator": sum(st["exempt"] for st in per.values()),
                 "formula_outputs_never_compared": vac,
                 "formula_sample": [{"pipe": items[ii]["entry"]["pipe"], "cfg": items[ii]["cfg"], "word": o["w"], "documented": o["out"]}
